@@ -304,6 +304,14 @@ def run(check, repo: Repo) -> None:
                      dmod.line(c),
                      fail_detail=f"mask={unparse(mk) if mk is not None else None}: zero-filled bright-field pixels outside the overlap are treated as data and can "
                                  f"tie two stretches of the overlap's boundary to the same 2π level (a tear inside the connected region)")
+    # sibling agreement of the passes: the caller's unwrapping options (**unwrap_kwargs: wrap_around, regularisation …) reach every pass
+    stars = [sorted(unparse(k.value) for k in c.keywords if k.arg is None) for c in calls]
+    ref_star = max(stars, key=len) if stars else []
+    for i, (c, st_) in enumerate(zip(calls, stars)):
+        check.decide(st_ == ref_star, "C17-R5", f"unwrap_bf_overlap_phase_torch: unwrap call #{i + 1} receives the caller's unwrapping options like its sibling pass",
+                     str(st_), dmod.line(c), definite=True,
+                     fail_detail=f"this pass forwards {st_ or 'no option dict'}, a sibling pass forwards **{ref_star}: a caller-supplied wrap_around=False reaches only one "
+                                 f"pass — the other offers periodic seam edges on a non-periodic field and can tear the connected region by 2π")
     rets = [unparse(n.value) for n in ast.walk(ub) if isinstance(n, ast.Return)]
     check.decide(bool(rets) and set(rets) == {"phase_grid[bf_mask]"}, "C17-R5", "unwrap_bf_overlap_phase_torch returns the unwrapped phases at the bright-field pixels", str(rets), dmod.line(ub),
                  fail_detail=str(rets))
